@@ -73,7 +73,41 @@ class C03(Check):
         from mc.checks import c03_cli
 
         out += c03_cli.shards(tier)
+        for eol in ("LF", "CRLF"):
+            for buf in (250_000, 10_000, 4096, 61):
+                out.append(("long", eol, buf))
         return out
+
+    def check_long(self, eol, buf, ctx):
+        """records of 20 000 / 9 000 residues (more than 8 KiB of whole lines in one fetch), width 60"""
+        unit = b"ACGTTGCAAGGCTTAACCGGATATCGCGAATTCCGGAAGCTTGGATCCAAGCTTACGTAc"
+        seqs = {"big": (unit * 334)[:20_000], "mid": (unit[::-1] * 150)[:9_000]}
+        data, _ = fm.make_fasta([(n, s, 60) for n, s in seqs.items()], b"\r\n" if eol == "CRLF" else b"\n", True)
+        idx, _asm = index_fasta_file(fm.MemPath(data), buf)
+        fi = FastaIndex(fm.MemPath(data), buf)
+        fi.index = idx
+        rows_list = [
+            [("F", "big", 1, 20_000, 1)],
+            [("F", "big", 1, 20_000, -1)],
+            [("F", "big", 61, 19_940, 1), ("G", 8_200, "scaffold"), ("F", "mid", 1, 9_000, -1)],
+            [("F", "mid", 30, 8_971, 1), ("F", "big", 8_192, 16_385, -1), ("G", 60, "scaffold"), ("F", "big", 1, 8_193, 0)],
+            [("F", "big", 100, 8_400, 1), ("G", 140, "scaffold"), ("G", 180, "contig"), ("F", "mid", 1, 60, 1)],
+        ]
+        for rows in rows_list:
+            for ll in (60, 25):
+                case = ["long", eol, buf, ll, [list(r) for r in rows]]
+                ctx.cur = case
+                ctx.evaluations += 1
+                ctx.nontrivial += 1
+                asm = Assembly("x", scaffolds=[fm.build_scaffold("s1", rows)])
+                out = io.BytesIO()
+                FastaStream(out, fi, line_length=ll).write_assembly(asm)
+                want = fm.expected_stream(seqs, [("s1", rows)], ll)
+                if out.getvalue() != want:
+                    got = out.getvalue()
+                    k = next((i for i, (a, b) in enumerate(zip(got, want)) if a != b), min(len(got), len(want)))
+                    ctx.violation("stream-bytes/long-record", case, f"lengths {len(got)} vs {len(want)}; first difference at byte {k}: {got[k:k+40]!r} vs {want[k:k+40]!r}")
+        ctx.sample({"long": "20 000 / 9 000 residue records, width 60", "eol": eol, "buffer": buf})
 
     def make_index(self, w, eol, buf):
         data, _ = fm.make_fasta([(n, s, w) for n, s in RECS], b"\r\n" if eol == "CRLF" else b"\n", True)
@@ -113,6 +147,8 @@ class C03(Check):
             from mc.checks import c03_cli
 
             return c03_cli.run_shard(self, shard, ctx)
+        if shard[0] == "long":
+            return self.check_long(shard[1], shard[2], ctx)
         _, w, eol, buf, tier = shard
         fi = self.make_index(w, eol, buf)
         rows = all_rows(BUFFERS)
@@ -142,6 +178,8 @@ class C03(Check):
             from mc.checks import c03_cli
 
             return c03_cli.replay(self, case, ctx)
+        if case and case[0] == "long":
+            return self.check_long(case[1], case[2], ctx)
         w, eol, buf, ll, scaffolds = case
         fi = self.make_index(w, eol, buf)
         self.check_scaffolds(fi, w, eol, buf, ll, [(n, [tuple(r) for r in rows]) for n, rows in scaffolds], ctx)
